@@ -2,7 +2,7 @@
 'Generator').  Everything derives from the rng passed in."""
 import random
 
-LITS = ['"a"', '"b"', '"c"', '"0"', '"1"', '"ab"', '""', '"x y"', '"\u00e9"', '"\'"', "'\"'", '"\\\\"']
+LITS = ['"a.c"', '"[ab]"', '"a"', '"b"', '"c"', '"0"', '"1"', '"ab"', '""', '"x y"', '"\u00e9"', '"\'"', "'\"'", '"\\\\"']
 BLITS = ['b"a"', 'b"b"', 'b"\\x00"', 'b"\\xff"', 'b"ab"', 'b"z"']
 
 
@@ -10,7 +10,7 @@ def lit(rng, kind):
     return rng.choice(BLITS if kind == "bytes" else LITS)
 
 
-REGEXES = ["[ab]", "a*", "[0-9]+", "(a|b)c?", "x{1,3}", "[a-c][0-1]", "\\d"]
+REGEXES = ["a.c", "[ab]", "a*", "[0-9]+", "(a|b)c?", "x{1,3}", "[a-c][0-1]", "\\d"]
 
 
 def body(rng, nts, depth, kinds, allow_ref=True):
